@@ -46,6 +46,10 @@ class ReturnedSameObject(ContractViolation):
     signature = "returned-input-object"
 
 
+class TransformDiffers(ContractViolation):
+    signature = "signal-transform-differs-from-composed-modifiers"
+
+
 class GroupedResampleDiffers(ContractViolation):
     signature = "grouped-resample-differs-from-columnwise"
 
@@ -323,7 +327,7 @@ def _instrument():
     tsm = pyrepo.load("mujoco.sysid._src.timeseries")
     prm = pyrepo.load("mujoco.sysid._src.parameter")
     sm = pyrepo.load("mujoco.sysid._src.signal_modifier")
-    pyrepo.load("mujoco.sysid._src.signal_transform")      # loads against the same modules; asserts it is the repo's
+    stm = pyrepo.load("mujoco.sysid._src.signal_transform")      # loads against the same modules; asserts it is the repo's
 
     def wrap(fn, extra=(), snaps=()):
         f = getattr(sm, fn)
@@ -359,7 +363,7 @@ def _instrument():
     g = icontract.snapshot(lambda new_times: _arr_snap(new_times), name="t_arg")(g)
     g = icontract.snapshot(lambda self: snapshot_series(self), name="ts")(g)
     TS.resample = g
-    _INSTR.update(tsm=tsm, prm=prm, sm=sm, TS=TS)
+    _INSTR.update(tsm=tsm, prm=prm, sm=sm, TS=TS, st=stm)
     return _INSTR
 
 
@@ -508,6 +512,45 @@ def check_case(c, P):
     q = np.concatenate([target, ts.times[:: max(1, c["n"] // 5)], [ts.times[0] - 1.0, ts.times[-1] + 1.0]])
     _guard(P, c, "interpolate", lambda: ts.interpolate(q, method=c["method"]), cls=c["method"])
     _guard(P, c, "interpolate_scalar", lambda: ts.interpolate(float(ts.times[0] + 0.3 * span), method=c["method"]), cls=c["method"])
+    # the declarative SignalTransform applies registered gains/biases in one pass: same purity and same values as composing the
+    # (contract-checked) apply_gain / apply_bias calls of the module's own reference path
+    ST = ins["st"].SignalTransform
+    PD = ins["prm"].ParameterDict
+    r2 = np.random.default_rng([int(c["dseed"]), 4801])
+    tr = ST()
+    pd = PD()
+    kinds = []
+    for kind in ("gain", "bias"):
+        for j in range(int(r2.integers(0, 3))):
+            pat = str(r2.choice([names[int(r2.integers(len(names)))], "*", names[0][:1] + "*", "nomatch*"]))
+            pv = float(r2.choice([c["gain"][0], c["bias"][0], 0.5, -2.0, 1.0]))
+            pn = "%s%d" % (kind, j)
+            pd.add(Parameter(pn, pv, pv - 10, pv + 10))
+            getattr(tr, kind)(pat, pd[pn], target=str(r2.choice(["both", "measured", "predicted"])))
+            kinds.append(kind)
+    shape_cls = "gains%d-biases%d" % (kinds.count("gain"), kinds.count("bias"))
+    for label in ("measured", "predicted"):
+        view = ts if r2.random() < 0.5 or c["n"] < 4 else None
+        src = ts
+        if view is None:
+            # a window of the caller's series: its data is a VIEW of the caller's array (as in SignalTransform.apply)
+            k0 = int(r2.integers(0, max(1, c["n"] // 2)))
+            src = ins["TS"](ts.times[k0:], ts.data[k0:], ts.signal_mapping)
+        snap_src = snapshot_series(src)
+
+        def run_tr(src=src, label=label, snap_src=snap_src):
+            out = tr._apply_gains_biases(src, label, pd)
+            MON.why = "SignalTransform._apply_gains_biases"
+            dd = _series_diff(src, snap_src)
+            if dd is not None:
+                raise InputMutated("SignalTransform._apply_gains_biases modified its input series: " + dd)
+            if out is src or (isinstance(out.data, np.ndarray) and np.shares_memory(out.data, src.data)):
+                raise ReturnedSameObject("SignalTransform._apply_gains_biases returned (a view of) its input")
+            ref = tr._apply_gains_biases_reference(src, label, pd)
+            if not np.array_equal(out.data, ref.data, equal_nan=True) and not np.allclose(out.data, ref.data, rtol=1e-12, atol=0, equal_nan=True):
+                raise TransformDiffers("SignalTransform one-pass gains/biases differ from composing apply_gain/apply_bias")
+            return out
+        _guard(P, c, "signal_transform_gains_biases", run_tr, cls=shape_cls + "|" + label + ("|view" if view is None else "|own"))
     # after the whole session the caller's series must still be what it built
     d = _series_diff(ts, whole)
     if d is not None:
